@@ -119,3 +119,10 @@ add("C10", "fault enumeration: every truncation offset of the cache file and eve
     "the from-scratch report. Complete over the enumerated fault points of those trees.",
     "crash = prefix of the valid bytes (single write_text); right-typed wrong values under a matching checksum are out of scope",
     category="fault_enumeration")
+
+add("C06", "differential testing over Hypothesis-drawn histories executed in fresh subprocesses under drawn PYTHONHASHSEED values; baseline = each file analysed alone in a forked pristine interpreter",
+    "80 (thorough 860) histories per run: ordered multisets of ~150 on-disk files (real-world, generated, malformed, byte-identical "
+    "contents under different languages) analysed one after another in a single fresh process under a drawn hash seed, and tree-scan "
+    "sessions (T, a foreign tree with its own exclusions, T again, T with permuted os.walk order); every per-file digest and every "
+    "report digest must equal its isolated hash-seed-0 baseline.",
+    "hash seeds are sampled; digests cover language, loc and all measurement fields (exceptions by type)")
